@@ -82,6 +82,6 @@ def run(ctx):
     ctx.extra["input_distribution"] = dict(dist, points=n, accepted=acc)
     ctx.samples.append({"first_point": json.loads(open(pre + ".obs").readline())["point"]})
     ctx.rule = ("fault lattice {signature kind x key-set shape x iss x aud shape x exp x iat x nbf x nonce x sub x sid x sid-required x acr x configured acr x response shape x "
-                "cached-JWKS freshness x sub-second clock offset}: baseline, every single deviation and every pair of deviations (thorough: triples with six of the dimensions); tokens are assembled and signed "
+                "cached-JWKS freshness x sub-second clock offset}: baseline, every single deviation and every pair of deviations (thorough: triples whose third deviation is the signature kind, the audience shape or the JWKS freshness); tokens are assembled and signed "
                 "by hand (RS256 / PS256 / ES256 / HS256-over-public-key / none)")
     ctx.assumptions += ["ideal signatures (real RSA / ECDSA / HMAC are exercised but not modelled)", "jwx v2.1.4 behaviour is modelled, tied by this lattice"]
